@@ -1,7 +1,7 @@
 (* Sem/CallsStrip.v — what utils.strip_paren computes on every string with balanced parentheses
    (C08_strip_levels), and the parenthesis trees of rendered expressions. *)
 From Coq Require Import ZArith Lia.
-From Ford Require Import Base.Str Base.StrFacts Gen.Intrinsics Sem.Calls Sem.CallsSpec.
+From Ford Require Import Base.Str Base.StrFacts Gen.Intrinsics Sem.Calls Sem.CallsSpec Sem.CallsDefs.
 
 Lemma sp_run_app ret st a b : sp_run ret (sp_run ret st a) b = sp_run ret st (a ++ b).
 Proof. unfold sp_run. now rewrite fold_left_app. Qed.
@@ -184,39 +184,7 @@ with tree_d (d : desig) : ptree :=
   | DPartA x a r => pt_app (pt_str x) (PGrp (tree_e a) (PCh pct (tree_d r)))
   end.
 
-(* the text of one level: argument lists and parenthesised operands emptied *)
-Fixpoint sh_d (d : desig) : str :=
-  match d with
-  | DLast0 x => x
-  | DLastA x _ => x ++ [lpar; rpar]
-  | DPart0 x r => x ++ pct :: sh_d r
-  | DPartA x _ r => x ++ lpar :: rpar :: pct :: sh_d r
-  end.
-Fixpoint sh_e (e : expr) : str :=
-  match e with
-  | ELit t => t
-  | EDes d => sh_d d
-  | EPar _ => [lpar; rpar]
-  | EUn op e' => op ++ sh_e e'
-  | EBin a op b => sh_e a ++ op ++ sh_e b
-  end.
 
-(* the parenthesised parts one level down, left to right *)
-Fixpoint subs_d (d : desig) : list expr :=
-  match d with
-  | DLast0 _ => []
-  | DLastA _ a => [a]
-  | DPart0 _ r => subs_d r
-  | DPartA _ a r => a :: subs_d r
-  end.
-Fixpoint subs_e (e : expr) : list expr :=
-  match e with
-  | ELit _ => []
-  | EDes d => subs_d d
-  | EPar e' => [e']
-  | EUn _ e' => subs_e e'
-  | EBin a _ b => subs_e a ++ subs_e b
-  end.
 
 Scheme expr_mut := Induction for expr Sort Prop
   with desig_mut := Induction for desig Sort Prop.
